@@ -275,7 +275,7 @@ def run_case(mod, case, opts):
             continue
         if o.depth is not None: res['depth_max'] = max(res['depth_max'], o.depth[0])
         hyp = list(o.hyp) + list(getattr(o.kp.dom, 'hyp', []))
-        r, m, dt, who = smt.prove(o.pc, hyp, o.goal, timeout_s=opts.get('timeout', case.timeout), logic=case.smt_logic(), portfolio=case.portfolio, order_only=getattr(case, 'order_only', False))
+        r, m, dt, who = smt.prove(o.pc, hyp, o.goal, timeout_s=opts.get('timeout', case.timeout), logic=case.smt_logic(), portfolio=case.portfolio, order_only=getattr(case, 'order_only', False), api_default=getattr(case, 'api_default', False))
         solver_t += dt
         if r == 'unsat': res['discharged'] += 1
         elif r == 'sat': res['sat'].append({'label': o.label, 'note': o.note, 'model': m, 'kind': o.kind})
